@@ -269,7 +269,7 @@ class Slicer:
             for elem in self.slices:
                 result = numpy.vectorize(func, cache=True)(self.array.__getitem__(elem))
                 self.array.__setitem__(elem, result)
-        else:
+        elif self.array.__getitem__(self.slices).size:  # (no wells: nothing to apply it to - numpy.vectorize refuses)
             self.array.__setitem__(self.slices, numpy.vectorize(func, cache=True)(self.array.__getitem__(self.slices)))
 
     def set(self, values):
